@@ -1,5 +1,5 @@
 (* C17 (partial): model of derive/src/parse.rs::next_type on proc-macro token trees, for the field-type fragment the templates consume *)
-From Coq Require Import List Arith Lia Bool String.
+From Coq Require Import List Arith Lia Bool String DecimalString.
 Import ListNotations.
 Local Open Scope string_scope. Local Open Scope list_scope.
 
@@ -116,8 +116,21 @@ Definition next_vis (s: list tt) : list tt :=
   match s with TId v :: s1 => if v =? "pub" then match s1 with TG Paren _ :: s2 => s2 | _ => s1 end else s | _ => s end.
 
 
+(* usize::to_string *)
+Definition dec (n: nat) : string := NilEmpty.string_of_uint (Nat.to_uint n).
+(* how a literal const argument prints back: an integer literal as its value, anything else (a char) as written *)
+Definition lit_text (l: lit) : string := match l with LNat n => dec n | LStr s => s end.
 Section Loops.
 Variable nt : list tt -> res (option ty).
+(* next_generic_argument (repair of D28): a generic argument is a type, or a const argument - a literal, a negative literal, a block - kept as a
+   NAME that prints back as written; a block is kept as the group's own text, which this model does not reproduce (Unsup) *)
+Definition garg (s: list tt) : res (option ty) :=
+  match s with
+  | TLit l :: r => Ok (Some (Ty (CNamed [lit_text l]) None None None)) r
+  | TP PMinus :: TLit l :: r => Ok (Some (Ty (CNamed [("-" ++ lit_text l)%string]) None None None)) r
+  | TG Brace _ :: _ => Unsup
+  | _ => nt s
+  end.
 (* next_tuple: while let Some(t) = next_type { push; if no comma break } *)
 Fixpoint tuple_loop (k: nat) (acc: list ty) (s: list tt) : res (list ty) :=
   match k with 0 => Fuel | S k' =>
@@ -131,7 +144,7 @@ Fixpoint tuple_loop (k: nat) (acc: list ty) (s: list tt) : res (list ty) :=
 Fixpoint gen_loop (k: nat) (acc: list ty) (s: list tt) : res (list ty) :=
   match k with 0 => Fuel | S k' =>
     match s with
-    | TP PComma :: s1 => bind (expect (nt s1)) (fun t s2 => gen_loop k' (acc ++ [t]) s2)
+    | TP PComma :: s1 => bind (expect (garg s1)) (fun t s2 => gen_loop k' (acc ++ [t]) s2)
     | _ => Ok acc s
     end
   end.
@@ -183,7 +196,7 @@ Definition after_ref (nt: list tt -> res (option ty)) (rt: option (option string
           | TP PLt :: src4 =>
               if path_empty path then Unsup                (* <T as Trait>::Assoc *)
               else
-                bind (expect (nt src4)) (fun g0 src5 =>
+                bind (expect (garg nt src4)) (fun g0 src5 =>
                 bind (gen_loop nt (S (List.length src5)) [g0] src5)
                      (fun gens src6 =>
                         match src6 with
